@@ -8,10 +8,10 @@ from conductor.utils.user_code import cli_command
 from conductor.task_identifier import TaskIdentifier
 
 _EXPERIMENT_TASK_REGEX = re.compile(
-    r"^(?P<name>[a-zA-Z0-9_-]+)\.task\.(?P<timestamp>[1-9][0-9]*)$"
+    r"^(?P<name>[a-zA-Z0-9_-]+)\.task\.(?P<timestamp>[1-9][0-9]*)\Z"
 )
 
-_REGULAR_TASK_REGEX = re.compile(r"^(?P<name>[a-zA-Z0-9_-]+)\.task$")
+_REGULAR_TASK_REGEX = re.compile(r"^(?P<name>[a-zA-Z0-9_-]+)\.task\Z")
 
 
 def register_command(subparsers):
